@@ -94,43 +94,98 @@ theorem C07_handler_idempotent (debug head : Bool) (o : Out) (e e' : Err) :
     handle debug head (handle debug head o e) e' = handle debug head o e :=
   handle_committed _ _ _ _ (handle_commits _ _ _ _)
 
-theorem chainError_eq (c : Case) (o : Out) (e : Err) :
-    chainError c o e = handle c.debug c.head o e := by
-  unfold chainError
-  cases c.double
-  · rfl
-  · exact C07_handler_idempotent _ _ _ _ _
+/-! ## the middleware chain in closed form -/
 
-/-- the error that reaches the handler, if the request does not crash -/
-def raisedErr : Raise → Option Err
-  | .returned e => some e
-  | .panicked v => recoverErr v
+/-- the innermost `Recover` layer whose Skipper does not skip (layers innermost first) -/
+def firstCatcher : List Layer → Option RecCfg
+  | [] => none
+  | .recover cfg :: ls => if cfg.skip then firstCatcher ls else some cfg
+  | .callsError _ :: ls => firstCatcher ls
+
+/-- the error the client must be told about: `none` = the panic leaves `ServeHTTP`;
+    `some none` = a `LogErrorFunc` returned nil (the application swallowed the error);
+    `some (some e)` = `e` — the returned error itself, the recovered panic value as an error, or
+    what the catching Recover's `LogErrorFunc` put in its place -/
+def finalErr (inner : List Layer) : Raise → Option (Option Err)
+  | .returned e => some (some e)
+  | .panicked v =>
+    match recoverErr v, firstCatcher inner with
+    | some e, some cfg => some (logged cfg.logFn e)
+    | _, _ => none
+
+theorem climb_returning_none (debug head : Bool) (ls : List Layer) (o : Out) :
+    climb debug head ls (o, .returning none) = (o, .returning none) := by
+  induction ls with
+  | nil => rfl
+  | cons l ls ih => cases l <;> simpa [climb, layerStep] using ih
+
+/-- a returned error: however many middlewares report it through `c.Error` on its way up,
+    the response is the one a single invocation of the handler produces -/
+theorem finish_climb_returning (debug head : Bool) (ls : List Layer) (o : Out) (e : Err) :
+    finish debug head (climb debug head ls (o, .returning (some e)))
+      = .response (handle debug head o e) := by
+  induction ls generalizing o with
+  | nil => rfl
+  | cons l ls ih =>
+    cases l with
+    | recover cfg => simpa [climb, layerStep] using ih o
+    | callsError ret =>
+      cases ret
+      · simp [climb, layerStep, climb_returning_none, finish]
+      · simp only [climb, layerStep, if_true]
+        rw [ih, C07_handler_idempotent]
+
+theorem finish_climb_panicking (debug head : Bool) (ls : List Layer) (o : Out) (v : PanicVal) :
+    finish debug head (climb debug head ls (o, .panicking v)) =
+      match finalErr ls (.panicked v) with
+      | none => .crashed
+      | some none => .response o
+      | some (some e) => .response (handle debug head o e) := by
+  induction ls with
+  | nil => cases hv : recoverErr v <;> simp [climb, finish, finalErr, firstCatcher, hv]
+  | cons l ls ih =>
+    cases l with
+    | callsError ret => simpa [climb, layerStep, finalErr, firstCatcher] using ih
+    | recover cfg =>
+      cases hs : cfg.skip with
+      | true => simpa [climb, layerStep, finalErr, firstCatcher, hs] using ih
+      | false =>
+        cases hv : recoverErr v with
+        | none =>
+          simp only [climb, layerStep, hs, hv, Bool.false_eq_true, if_false, finalErr]
+          rw [ih]; simp [finalErr, hv]
+        | some e =>
+          simp only [climb, layerStep, hs, hv, Bool.false_eq_true, if_false, finalErr, firstCatcher]
+          cases hl : logged cfg.logFn e with
+          | none => simp [climb_returning_none, finish]
+          | some e' =>
+            cases cfg.disableEH
+            · simp [climb_returning_none, finish]
+            · simp [finish_climb_returning]
 
 /-- does the panic leave `ServeHTTP`? -/
-def crashes (c : Case) : Bool :=
-  match c.raise with
-  | .returned _ => false
-  | .panicked v => !c.recover || (recoverErr v).isNone
+def crashes (c : Case) : Bool := (finalErr c.layers.reverse c.raise).isNone
 
-/-- `serve` in closed form: whichever way the error travels (returned; panic → Recover →
-    `c.Error`; panic → Recover → returned; with or without the double-handling middleware)
-    the response is the one single invocation of the handler produces. -/
+/-- `serve` in closed form: whichever way the error travels (returned; panic → some Recover →
+    `c.Error`; panic → Recover → returned; past skipped Recover instances; through middlewares
+    that report it with `c.Error` themselves) the response is the one single invocation of
+    the handler produces, for the one error `finalErr` names. -/
 theorem serve_eq (c : Case) :
     serve c =
-      if crashes c then .crashed
-      else match raisedErr c.raise with
-        | some e => .response (handle c.debug c.head (applyPre c.pre) e)
-        | none => .crashed := by
-  obtain ⟨debug, head, recover, disableEH, double, pre, raise⟩ := c
-  cases raise with
-  | returned e => simp [serve, crashes, raisedErr, chainError_eq]
-  | panicked v =>
-    cases recover
-    · simp [serve, crashes]
-    · cases hv : recoverErr v with
-      | none => simp [serve, crashes, hv]
-      | some e =>
-        cases disableEH <;> simp [serve, crashes, raisedErr, hv, chainError_eq]
+      match finalErr c.layers.reverse c.raise with
+      | none => .crashed
+      | some none => .response (applyPre c.pre)
+      | some (some e) => .response (handle c.debug c.head (applyPre c.pre) e) := by
+  unfold serve
+  cases hr : c.raise with
+  | returned e => simp [start, finish_climb_returning, finalErr]
+  | panicked v => simp only [start]; rw [finish_climb_panicking]
+
+/-- **C07_returned_ignores_middleware** — for a returned error neither the number, the kind,
+    the configuration nor the position of the middlewares matters. -/
+theorem C07_returned_ignores_middleware (c : Case) (e : Err) (h : c.raise = .returned e) :
+    serve c = .response (handle c.debug c.head (applyPre c.pre) e) := by
+  rw [serve_eq, h]; rfl
 
 /-- did the handler function commit the response before it failed? -/
 def preCommitted : Pre → Bool
@@ -141,44 +196,48 @@ def preCommitted : Pre → Bool
 theorem applyPre_committed (p : Pre) : (applyPre p).committed = preCommitted p := by
   cases p <;> rfl
 
-/-- **C07_one_response** — a request whose handler returns an error or panics (recovered)
-    yields exactly one response: the underlying writer receives exactly one `WriteHeader`
-    call, the response ends committed; if the handler had already committed a response, that
-    response is left exactly as it was (nothing is added). -/
-theorem C07_one_response (c : Case) (o : Out) (h : serve c = .response o) :
+/-- `e` is the error the chain ends up reporting for this request -/
+def Reported (c : Case) (e : Err) : Prop := finalErr c.layers.reverse c.raise = some (some e)
+
+theorem serve_reported {c : Case} {e : Err} (he : Reported c e) :
+    serve c = .response (handle c.debug c.head (applyPre c.pre) e) := by
+  rw [serve_eq, he]
+
+theorem out_of_reported {c : Case} {e : Err} {o : Out} (he : Reported c e)
+    (h : serve c = .response o) : o = handle c.debug c.head (applyPre c.pre) e := by
+  rw [serve_reported he] at h
+  exact (Outcome.response.inj h).symm
+
+/-- **C07_one_response** — a request whose handler returns an error or panics (recovered by
+    some Recover instance in the chain) yields exactly one response: the underlying writer
+    receives exactly one `WriteHeader` call, the response ends committed; if the handler had
+    already committed a response, that response is left exactly as it was (nothing is added) —
+    for every middleware chain. -/
+theorem C07_one_response (c : Case) (o : Out) (e : Err) (he : Reported c e)
+    (h : serve c = .response o) :
     o.calls.length = 1 ∧ o.committed = true ∧
     (preCommitted c.pre = true → o = applyPre c.pre) := by
-  rw [serve_eq] at h
-  split at h
-  · exact absurd h (by simp)
-  · split at h
-    · rename_i e he
-      simp only [Outcome.response.injEq] at h
-      subst h
-      refine ⟨?_, handle_commits _ _ _ _, ?_⟩
-      · by_cases hp : preCommitted c.pre = true
-        · rw [handle_committed _ _ _ _ (by rw [applyPre_committed]; exact hp)]
-          cases hpre : c.pre <;> simp_all [preCommitted, applyPre]
-        · rw [handle_uncommitted _ _ _ _ (by rw [applyPre_committed]; simpa using hp)]
-          cases hpre : c.pre <;> simp_all [preCommitted, applyPre]
-      · intro hp
-        exact handle_committed _ _ _ _ (by rw [applyPre_committed]; exact hp)
-    · exact absurd h (by simp)
+  have ho := out_of_reported he h
+  subst ho
+  refine ⟨?_, handle_commits _ _ _ _, ?_⟩
+  · by_cases hp : preCommitted c.pre = true
+    · rw [handle_committed _ _ _ _ (by rw [applyPre_committed]; exact hp)]
+      cases hpre : c.pre <;> simp_all [preCommitted, applyPre]
+    · rw [handle_uncommitted _ _ _ _ (by rw [applyPre_committed]; simpa using hp)]
+      cases hpre : c.pre <;> simp_all [preCommitted, applyPre]
+  · intro hp
+    exact handle_committed _ _ _ _ (by rw [applyPre_committed]; exact hp)
 
 /-- **C07_code_message** — if the handler had not committed anything, the client gets the
     status and the document the rule demands: the code and message of the HTTP error or of
     the HTTP error it directly carries, else 500 with the generic message; nothing else. -/
 theorem C07_code_message (c : Case) (o : Out) (e : Err) (h : serve c = .response o)
-    (he : raisedErr c.raise = some e) (hp : preCommitted c.pre = false) :
+    (he : Reported c e) (hp : preCommitted c.pre = false) :
     o.calls = [ruleCode e] ∧ o.docs = (if c.head then [] else [ruleDoc c.debug e]) := by
-  rw [serve_eq] at h
-  split at h
-  · exact absurd h (by simp)
-  · rw [he] at h
-    simp only [Outcome.response.injEq] at h
-    subst h
-    rw [handle_uncommitted _ _ _ _ (by rw [applyPre_committed]; exact hp)]
-    cases hpre : c.pre <;> simp_all [preCommitted, applyPre]
+  have ho := out_of_reported he h
+  subst ho
+  rw [handle_uncommitted _ _ _ _ (by rw [applyPre_committed]; exact hp)]
+  cases hpre : c.pre <;> simp_all [preCommitted, applyPre]
 
 /-- **C07_head_empty** — for HEAD the error handler never writes a body: the documents are
     exactly those the handler function itself had written before. -/
@@ -187,13 +246,19 @@ theorem C07_head_empty (c : Case) (o : Out) (h : serve c = .response o) (hh : c.
   rw [serve_eq] at h
   split at h
   · exact absurd h (by simp)
-  · split at h
-    · simp only [Outcome.response.injEq] at h
-      subst h
-      by_cases hc : (applyPre c.pre).committed = true
-      · rw [handle_committed _ _ _ _ hc]
-      · rw [handle_uncommitted _ _ _ _ (by simpa using hc)]; simp [hh]
-    · exact absurd h (by simp)
+  · simp only [Outcome.response.injEq] at h; subst h; rfl
+  · simp only [Outcome.response.injEq] at h
+    subst h
+    by_cases hc : (applyPre c.pre).committed = true
+    · rw [handle_committed _ _ _ _ hc]
+    · rw [handle_uncommitted _ _ _ _ (by simpa using hc)]; simp [hh]
+
+/-- **C07_swallowed** — the one way to get no error response out of a recovered panic is a
+    `LogErrorFunc` that returns nil ("the centralized HTTPErrorHandler will not be called"):
+    then the response is left exactly as the handler function left it. -/
+theorem C07_swallowed (c : Case) (h : finalErr c.layers.reverse c.raise = some none) :
+    serve c = .response (applyPre c.pre) := by
+  rw [serve_eq, h]
 
 /-! ## no leak -/
 
@@ -245,30 +310,26 @@ theorem C07_no_leak_noninterference (head : Bool) (o : Out) (e₁ e₂ : Err)
     (plain, wrapped, internal, at any depth; also a non-error panic value) never appears,
     unless the application itself put the same text into that message. -/
 theorem C07_no_leak (c : Case) (o : Out) (e : Err) (h : serve c = .response o)
-    (he : raisedErr c.raise = some e) (hd : c.debug = false) :
+    (he : Reported c e) (hd : c.debug = false) :
     ∀ d ∈ o.docs, d ∉ (applyPre c.pre).docs → ∀ a ∈ docAtoms d, a ∈ publicAtoms e := by
-  rw [serve_eq] at h
-  split at h
-  · exact absurd h (by simp)
-  · rw [he] at h
-    simp only [Outcome.response.injEq] at h
-    subst h
-    intro d hdm hnew a ha
-    by_cases hc : (applyPre c.pre).committed = true
-    · rw [handle_committed _ _ _ _ hc] at hdm; exact absurd hdm hnew
-    · rw [handle_uncommitted _ _ _ _ (by simpa using hc)] at hdm
-      simp only at hdm
-      split at hdm
+  have ho := out_of_reported he h
+  subst ho
+  intro d hdm hnew a ha
+  by_cases hc : (applyPre c.pre).committed = true
+  · rw [handle_committed _ _ _ _ hc] at hdm; exact absurd hdm hnew
+  · rw [handle_uncommitted _ _ _ _ (by simpa using hc)] at hdm
+    simp only at hdm
+    split at hdm
+    · exact absurd hdm hnew
+    · simp only [List.mem_append, List.mem_singleton] at hdm
+      rcases hdm with hdm | hdm
       · exact absurd hdm hnew
-      · simp only [List.mem_append, List.mem_singleton] at hdm
-        rcases hdm with hdm | hdm
-        · exact absurd hdm hnew
-        · subst hdm
-          rw [hd] at ha
-          exact ruleDoc_atoms_nodebug e a ha
+      · subst hdm
+        rw [hd] at ha
+        exact ruleDoc_atoms_nodebug e a ha
 
 theorem C07_no_leak_plain (c : Case) (o : Out) (e : Err) (h : serve c = .response o)
-    (he : raisedErr c.raise = some e) (hd : c.debug = false) (t : Atom)
+    (he : Reported c e) (hd : c.debug = false) (t : Atom)
     (_ht : t ∈ plainTexts e) (hfresh : t ∉ publicAtoms e) :
     ∀ d ∈ o.docs, d ∉ (applyPre c.pre).docs → t ∉ docAtoms d := by
   intro d hdm hnew hmem
@@ -279,49 +340,272 @@ theorem C07_no_leak_plain (c : Case) (o : Out) (e : Err) (h : serve c = .respons
 theorem publicAtoms_nonHTTP (e : Err) (h : own e = none) : publicAtoms e = [] := by
   unfold publicAtoms ruleSource; simp [h]
 
+/-- **C07_no_special_error_value** — the handler has no favourite error values: ANY two
+    non-HTTP errors (`context.Canceled`, `io.EOF`, a `%w` chain around an HTTPError, a driver
+    error, …) get the same response when Debug is off — 500 with the generic message on an
+    uncommitted response — and nothing at all is skipped or special-cased. -/
+theorem C07_no_special_error_value (head : Bool) (o : Out) (e₁ e₂ : Err)
+    (h₁ : own e₁ = none) (h₂ : own e₂ = none) :
+    handle false head o e₁ = handle false head o e₂ ∧
+    (o.committed = false →
+      (handle false head o e₁).calls = o.calls ++ [500] ∧
+      (handle false head o e₁).docs
+        = if head then o.docs else o.docs ++ [.message (.statusText 500) none]) := by
+  have r₁ : ruleSource e₁ = none := by unfold ruleSource; simp [h₁]
+  have r₂ : ruleSource e₂ = none := by unfold ruleSource; simp [h₂]
+  refine ⟨C07_no_leak_noninterference head o e₁ e₂ (r₁.trans r₂.symm), ?_⟩
+  intro hc
+  rw [handle_uncommitted _ _ _ _ hc]
+  simp [ruleCode, ruleDoc, r₁]
+
 /-! ## panics, and going on serving -/
 
-/-- **C07_recovered** — with Recover installed every panic value except
-    `http.ErrAbortHandler` yields a response (the panic does not leave `ServeHTTP`), and it
-    is the very response a handler *returning* the corresponding error would have produced. -/
-theorem C07_recovered (c : Case) (v : PanicVal) (hr : c.recover = true) (hv : v ≠ .abort)
-    (hraise : c.raise = .panicked v) :
+/-- the Recover instance that catches is configured like `middleware.Recover()` as far as the
+    error is concerned: `LogErrorFunc` unset or returning its argument -/
+def keepsError : LogFn → Bool
+  | .unset | .same => true
+  | _ => false
+
+/-- **C07_recovered** — if some Recover instance in the chain does not skip the request (and
+    keeps the error), every panic value except `http.ErrAbortHandler` yields a response (the
+    panic does not leave `ServeHTTP`), and it is the very response a handler *returning* the
+    corresponding error would have produced. -/
+theorem C07_recovered (c : Case) (v : PanicVal) (cfg : RecCfg)
+    (hcatch : firstCatcher c.layers.reverse = some cfg) (hk : keepsError cfg.logFn = true)
+    (hv : v ≠ .abort) (hraise : c.raise = .panicked v) :
     ∃ e, recoverErr v = some e ∧
       serve c = serve { c with raise := .returned e } ∧ ∃ o, serve c = .response o := by
-  cases v with
-  | abort => exact absurd rfl hv
-  | error e =>
-    refine ⟨e, rfl, ?_, ?_⟩ <;> simp [serve_eq, crashes, raisedErr, hraise, hr, recoverErr]
-  | str t =>
-    refine ⟨.plain t, rfl, ?_, ?_⟩ <;> simp [serve_eq, crashes, raisedErr, hraise, hr, recoverErr]
-  | int t =>
-    refine ⟨.plain t, rfl, ?_, ?_⟩ <;> simp [serve_eq, crashes, raisedErr, hraise, hr, recoverErr]
-  | struct t =>
-    refine ⟨.plain t, rfl, ?_, ?_⟩ <;> simp [serve_eq, crashes, raisedErr, hraise, hr, recoverErr]
+  have hrec : ∃ e, recoverErr v = some e := by
+    cases v with
+    | abort => exact absurd rfl hv
+    | error e => exact ⟨e, rfl⟩
+    | str t => exact ⟨.plain t, rfl⟩
+    | int t => exact ⟨.plain t, rfl⟩
+    | struct t => exact ⟨.plain t, rfl⟩
+  obtain ⟨e, hre⟩ := hrec
+  have hl : logged cfg.logFn e = some e := by
+    cases hf : cfg.logFn <;> simp_all [keepsError, logged]
+  have hfin : finalErr c.layers.reverse c.raise = some (some e) := by
+    simp [hraise, finalErr, hre, hcatch, hl]
+  refine ⟨e, hre, ?_, ?_⟩
+  · rw [serve_reported hfin, C07_returned_ignores_middleware { c with raise := .returned e } e rfl]
+  · exact ⟨_, serve_reported hfin⟩
+
+/-- **C07_logErrorFunc_replaces** — when the catching Recover's `LogErrorFunc` returns another
+    error, the client is told about THAT error (by the same rule), not about the panic value. -/
+theorem C07_logErrorFunc_replaces (c : Case) (v : PanicVal) (cfg : RecCfg) (e' : Err)
+    (hcatch : firstCatcher c.layers.reverse = some cfg) (hf : cfg.logFn = .replace e')
+    (hv : v ≠ .abort) (hraise : c.raise = .panicked v) :
+    serve c = .response (handle c.debug c.head (applyPre c.pre) e') := by
+  have hrec : ∃ e, recoverErr v = some e := by
+    cases v with
+    | abort => exact absurd rfl hv
+    | error e => exact ⟨e, rfl⟩
+    | str t => exact ⟨.plain t, rfl⟩
+    | int t => exact ⟨.plain t, rfl⟩
+    | struct t => exact ⟨.plain t, rfl⟩
+  obtain ⟨e, hre⟩ := hrec
+  have hfin : finalErr c.layers.reverse c.raise = some (some e') := by
+    simp [hraise, finalErr, hre, hcatch, hf, logged]
+  exact serve_reported hfin
+
+/-- **C07_unrecovered_crashes** — a panic leaves `ServeHTTP` exactly when it is the abort
+    sentinel or every Recover instance in the chain skips the request (none installed
+    included). -/
+theorem C07_unrecovered_crashes (c : Case) (v : PanicVal) (hraise : c.raise = .panicked v) :
+    serve c = .crashed ↔ (v = .abort ∨ firstCatcher c.layers.reverse = none) := by
+  rw [serve_eq, hraise]
+  cases hre : recoverErr v with
+  | none =>
+    have : v = .abort := by cases v <;> simp_all [recoverErr]
+    subst this
+    simp [finalErr, recoverErr]
+  | some e =>
+    have hne : v ≠ .abort := by intro h; subst h; simp [recoverErr] at hre
+    cases hc : firstCatcher c.layers.reverse with
+    | none => simp [finalErr, hre, hc]
+    | some cfg =>
+      simp only [finalErr, hre, hc]
+      cases logged cfg.logFn e <;> simp [hne]
 
 /-- **C07_returned_never_crashes** — a returned error always yields a response. -/
 theorem C07_returned_never_crashes (c : Case) (e : Err) (h : c.raise = .returned e) :
-    ∃ o, serve c = .response o := by
-  simp [serve_eq, crashes, raisedErr, h]
+    ∃ o, serve c = .response o :=
+  ⟨_, C07_returned_ignores_middleware c e h⟩
 
 /-- a non-error panic value gets the generic 500 and nothing of its text -/
-theorem C07_panic_value_generic (c : Case) (t : Atom) (o : Out)
+theorem C07_panic_value_generic (c : Case) (t : Atom) (o : Out) (cfg : RecCfg)
     (hraise : c.raise = .panicked (.str t) ∨ c.raise = .panicked (.int t) ∨
               c.raise = .panicked (.struct t))
+    (hcatch : firstCatcher c.layers.reverse = some cfg) (hk : keepsError cfg.logFn = true)
     (h : serve c = .response o) (hp : preCommitted c.pre = false) :
     o.calls = [500] ∧
     o.docs = (if c.head then [] else
       [.message (.statusText 500) (if c.debug then some [t] else none)]) := by
-  have he : raisedErr c.raise = some (.plain t) := by
-    rcases hraise with h | h | h <;> simp [h, raisedErr, recoverErr]
+  have hl : logged cfg.logFn (.plain t) = some (.plain t) := by
+    cases hf : cfg.logFn <;> simp_all [keepsError, logged]
+  have he : Reported c (.plain t) := by
+    unfold Reported
+    rcases hraise with h | h | h <;> simp [h, finalErr, recoverErr, hcatch, hl]
   have := C07_code_message c o (.plain t) h he hp
   simpa [ruleCode, ruleDoc, ruleSource, own, errorAtoms, canon, insertSorted] using this
+
+/-! ## hand-overs to `Echo.HTTPErrorHandler` -/
+
+theorem layerStep_travel (debug head : Bool) (l : Layer) (o : Out) (t : Travel) :
+    (layerStep debug head l (o, t)).2 = (layerTravel l t).1 := by
+  cases l with
+  | recover cfg =>
+    cases t with
+    | returning e => rfl
+    | panicking v =>
+      simp only [layerStep, layerTravel]
+      split
+      · rfl
+      · split
+        · rfl
+        · split
+          · rfl
+          · split <;> rfl
+  | callsError ret =>
+    cases t with
+    | panicking v => rfl
+    | returning e => cases e <;> rfl
+
+/-- `climbCount` follows the same travel as `climb` -/
+theorem climb_travel (debug head : Bool) (ls : List Layer) (o : Out) (t : Travel) :
+    (climb debug head ls (o, t)).2 = (climbCount ls t).1 := by
+  induction ls generalizing o t with
+  | nil => rfl
+  | cons l ls ih =>
+    simp only [climb, climbCount]
+    have h := layerStep_travel debug head l o t
+    generalize layerStep debug head l (o, t) = x at h
+    obtain ⟨o', t'⟩ := x
+    simp only at h
+    rw [ih, h]
+
+theorem climbCount_returning_none (ls : List Layer) :
+    climbCount ls (.returning none) = (.returning none, 0) := by
+  induction ls with
+  | nil => rfl
+  | cons l ls ih => cases l <;> simp [climbCount, layerTravel, ih]
+
+/-- an error the chain returns is handed over at least once: by a reporting middleware on the
+    way, or by `ServeHTTP` at the end -/
+theorem climbCount_returning_some (ls : List Layer) (e : Err) :
+    (climbCount ls (.returning (some e))).1 = .returning (some e) ∨
+    ((climbCount ls (.returning (some e))).1 = .returning none ∧
+      1 ≤ (climbCount ls (.returning (some e))).2) := by
+  induction ls with
+  | nil => exact Or.inl rfl
+  | cons l ls ih =>
+    cases l with
+    | recover cfg =>
+      simp only [climbCount, layerTravel, Nat.zero_add]
+      exact ih
+    | callsError ret =>
+      cases ret
+      · simp [climbCount, layerTravel, climbCount_returning_none]
+      · simp only [climbCount, layerTravel, if_true]
+        rcases ih with h | ⟨h1, h2⟩
+        · exact Or.inl h
+        · exact Or.inr ⟨h1, Nat.le_add_right 1 _⟩
+
+theorem handOvers_returning (ls : List Layer) (e : Err) :
+    1 ≤ countAtEnd (climbCount ls (.returning (some e))) := by
+  generalize hx : climbCount ls (.returning (some e)) = x
+  obtain ⟨t, n⟩ := x
+  rcases climbCount_returning_some ls e with h | ⟨h1, h2⟩
+  · rw [hx] at h; simp only at h; subst h; simp [countAtEnd]
+  · rw [hx] at h1 h2; simp only at h1 h2; subst h1; simpa [countAtEnd] using h2
+
+/-- **C07_handed_over** — whenever an error is to be reported (returned, or recovered and not
+    swallowed by a `LogErrorFunc`), `Echo.HTTPErrorHandler` is invoked at least once; when the
+    panic leaves `ServeHTTP` or the error is swallowed, it is not invoked on behalf of a
+    Recover instance or of `ServeHTTP` at all. -/
+theorem C07_handed_over (c : Case) (e : Err) (he : Reported c e) : 1 ≤ handOvers c := by
+  unfold Reported at he
+  unfold handOvers
+  cases hr : c.raise with
+  | returned e' => simpa [start] using handOvers_returning c.layers.reverse e'
+  | panicked v =>
+    rw [hr] at he
+    simp only [start]
+    generalize c.layers.reverse = ls at he
+    induction ls with
+    | nil => cases hv : recoverErr v <;> simp [finalErr, firstCatcher, hv] at he
+    | cons l ls ih =>
+      cases l with
+      | callsError ret =>
+        simp only [finalErr, firstCatcher] at he ih
+        simpa [climbCount, layerTravel] using ih he
+      | recover cfg =>
+        cases hs : cfg.skip with
+        | true =>
+          simp only [finalErr, firstCatcher, hs, if_true] at he ih
+          simpa [climbCount, layerTravel, hs] using ih he
+        | false =>
+          cases hv : recoverErr v with
+          | none => simp [finalErr, hv] at he
+          | some e0 =>
+            simp only [finalErr, firstCatcher, hs, hv, Bool.false_eq_true, if_false,
+              Option.some.injEq] at he
+            simp only [climbCount, layerTravel, hs, hv, he, Bool.false_eq_true, if_false]
+            cases cfg.disableEH
+            · simp [climbCount_returning_none, countAtEnd]
+            · simpa using handOvers_returning ls e
+
+/-- **C07_serveHTTP_hands_over_once** — in a chain without reporting middlewares (Recover
+    instances only, any number, any configuration) the handler is invoked exactly once for a
+    reported error: by `ServeHTTP` for a returned one, by the catching Recover (`c.Error`) or —
+    with DisableErrorHandler — by `ServeHTTP` for a recovered one. -/
+theorem C07_serveHTTP_hands_over_once (c : Case) (e : Err) (he : Reported c e)
+    (hrec : ∀ l ∈ c.layers, ∃ cfg, l = .recover cfg) : handOvers c = 1 := by
+  have hrec' : ∀ l ∈ c.layers.reverse, ∃ cfg, l = .recover cfg := by
+    intro l hl; exact hrec l (List.mem_reverse.mp hl)
+  unfold Reported at he
+  unfold handOvers
+  generalize c.layers.reverse = ls at he hrec'
+  have ret : ∀ (ls : List Layer) (e' : Err), (∀ l ∈ ls, ∃ cfg, l = .recover cfg) →
+      climbCount ls (.returning (some e')) = (.returning (some e'), 0) := by
+    intro ls e' h
+    induction ls with
+    | nil => rfl
+    | cons l ls ih =>
+      obtain ⟨cfg, rfl⟩ := h l (List.mem_cons_self)
+      simp only [climbCount, layerTravel, Nat.zero_add]
+      exact ih (fun l hl => h l (List.mem_cons_of_mem _ hl))
+  cases hr : c.raise with
+  | returned e' => simp [start, ret ls e' hrec', countAtEnd]
+  | panicked v =>
+    rw [hr] at he
+    simp only [start]
+    induction ls with
+    | nil => cases hv : recoverErr v <;> simp [finalErr, firstCatcher, hv] at he
+    | cons l ls ih =>
+      obtain ⟨cfg, rfl⟩ := hrec' l (List.mem_cons_self)
+      have hls : ∀ l ∈ ls, ∃ cfg, l = .recover cfg := fun l hl => hrec' l (List.mem_cons_of_mem _ hl)
+      cases hs : cfg.skip with
+      | true =>
+        simp only [finalErr, firstCatcher, hs, if_true] at he ih
+        simpa [climbCount, layerTravel, hs] using ih hls he
+      | false =>
+        cases hv : recoverErr v with
+        | none => simp [finalErr, hv] at he
+        | some e0 =>
+          simp only [finalErr, firstCatcher, hs, hv, Bool.false_eq_true, if_false,
+            Option.some.injEq] at he
+          simp only [climbCount, layerTravel, hs, hv, he, Bool.false_eq_true, if_false]
+          cases cfg.disableEH
+          · simp [climbCount_returning_none, countAtEnd]
+          · simp [ret ls e hls, countAtEnd]
 
 /-- **C07_requests_independent** — in a sequence of requests through one Echo every request
     gets the response it would get alone, whatever failed before it (errors, recovered panics,
     crashes).  In the model this holds by construction (`serveAll` is a `map`: the model has no
     state that outlives a request); the claim about the real code — where a pooled context IS
-    reused — is the correspondence run on sequences. -/
+    reused and package-level error values exist — is the correspondence run on sequences. -/
 theorem C07_requests_independent (cs : List Case) (i : Nat) (h : i < cs.length) :
     (serveAll cs)[i]? = some (serve cs[i]) := by
   simp [serveAll, h]
@@ -331,17 +615,19 @@ theorem C07_sequence_all_answered (cs : List Case)
   intro o ho
   simp only [serveAll, List.mem_map] at ho
   obtain ⟨c, hc, rfl⟩ := ho
-  rw [serve_eq, h c hc]
-  simp only [Bool.false_eq_true, if_false]
-  cases hr : raisedErr c.raise with
-  | some e => exact ⟨_, rfl⟩
-  | none =>
-    have := h c hc
-    cases hraise : c.raise with
-    | returned e => simp [raisedErr, hraise] at hr
-    | panicked v => simp [crashes, hraise, raisedErr] at this hr; simp [hr] at this
+  have hcr := h c hc
+  rw [serve_eq]
+  cases hf : finalErr c.layers.reverse c.raise with
+  | none => simp [crashes, hf] at hcr
+  | some x => cases x <;> exact ⟨_, rfl⟩
 
 /-! ## non-vacuity -/
+
+/-- the chain used by most examples: an outer middleware that reports and returns the error,
+    `Recover` with DisableErrorHandler inside it -/
+def chainA : List Layer := [.callsError true, .recover ⟨false, true, .unset⟩]
+/-- plain `middleware.Recover()` -/
+def chainR : List Layer := [.recover ⟨false, false, .unset⟩]
 
 /-- one level of Internal only: 400 carrying 409 carrying 418 → the client gets 409 -/
 example : ruleCode (.httpI 400 (.str 1) (.httpI 409 (.str 2) (.http 418 (.str 3)))) = 409 := by decide
@@ -349,35 +635,68 @@ example : ruleCode (.httpI 400 (.str 1) (.httpI 409 (.str 2) (.http 418 (.str 3)
 example : ruleCode (.wrap 9 (.http 403 (.str 1))) = 500 ∧
     ruleDoc false (.wrap 9 (.http 403 (.str 1))) = .message (.statusText 500) none := by decide
 /-- a full request: panic(err) under Recover with the double-handling middleware, Debug on -/
-example : serve ⟨true, false, true, true, true, .jsonBad 201,
+example : serve ⟨true, false, chainA, .jsonBad 201,
       .panicked (.error (.httpI 400 (.str 7) (.httpI 404 (.str 8) (.plain 9))))⟩
     = .response ⟨[404], [.message (.atom 8) (some [7, 8, 9])], true⟩ := by decide
 /-- the same with Debug off: atom 9 (the internal plain error) and 7 are gone -/
-example : serve ⟨false, false, true, true, true, .jsonBad 201,
+example : serve ⟨false, false, chainA, .jsonBad 201,
       .panicked (.error (.httpI 400 (.str 7) (.httpI 404 (.str 8) (.plain 9))))⟩
     = .response ⟨[404], [.message (.atom 8) none], true⟩ := by decide
 /-- committed before the error: nothing added -/
-example : serve ⟨true, false, false, false, true, .wrote 201, .returned (.plain 5)⟩
+example : serve ⟨true, false, [.callsError true], .wrote 201, .returned (.plain 5)⟩
     = .response ⟨[201], [.pre], true⟩ := by decide
 /-- the hypotheses of `C07_no_leak_plain` are met: 9 is a plain text, not public -/
 example : (9 : Nat) ∈ plainTexts (.httpI 400 (.str 7) (.httpI 404 (.str 8) (.plain 9))) ∧
     (9 : Nat) ∉ publicAtoms (.httpI 400 (.str 7) (.httpI 404 (.str 8) (.plain 9))) := by decide
 /-- an HTTPError without a message carrying a plain internal error: `null`, nothing of atom 9
     (the input class of the seeded mutation `case nil: message = he.Error()`) -/
-example : serve ⟨false, false, true, false, false, .nothing, .returned (.httpI 502 .nil (.plain 9))⟩
+example : serve ⟨false, false, chainR, .nothing, .returned (.httpI 502 .nil (.plain 9))⟩
     = .response ⟨[502], [.null], true⟩ := by decide
-example : serve ⟨true, false, true, false, false, .nothing,
+example : serve ⟨true, false, chainR, .nothing,
       .returned (.httpI 400 (.str 1) (.httpI 409 .nil (.plain 9)))⟩
     = .response ⟨[409], [.null], true⟩ := by decide
 /-- three failing requests in a row (panic, returned error, panic): each gets its own response -/
-example : serveAll [⟨false, false, true, false, false, .nothing, .panicked (.str 1)⟩,
-                    ⟨false, false, true, false, false, .nothing, .returned (.http 404 (.str 2))⟩,
-                    ⟨false, false, true, false, false, .nothing, .panicked (.int 3)⟩]
+example : serveAll [⟨false, false, chainR, .nothing, .panicked (.str 1)⟩,
+                    ⟨false, false, chainR, .nothing, .returned (.http 404 (.str 2))⟩,
+                    ⟨false, false, chainR, .nothing, .panicked (.int 3)⟩]
     = [.response ⟨[500], [.message (.statusText 500) none], true⟩,
        .response ⟨[404], [.message (.atom 2) none], true⟩,
        .response ⟨[500], [.message (.statusText 500) none], true⟩] := by decide
-/-- crashes: no Recover, or the abort sentinel -/
-example : serve ⟨false, false, false, false, false, .nothing, .panicked (.str 1)⟩ = .crashed := by decide
-example : serve ⟨false, false, true, false, false, .nothing, .panicked .abort⟩ = .crashed := by decide
+/-- the input class of the seeded "shared sentinel" mutation: request 1 returns
+    `ErrInternalServerError.SetInternal(<HTTPError 400>)` (answered 400), request 2 a plain
+    error: it must get the generic 500 -/
+example : serveAll [⟨false, false, [], .nothing, .returned (.httpI 500 .dflt (.http 400 (.str 1)))⟩,
+                    ⟨false, false, [], .nothing, .returned (.plain 2)⟩]
+    = [.response ⟨[400], [.message (.atom 1) none], true⟩,
+       .response ⟨[500], [.message (.statusText 500) none], true⟩] := by decide
+/-- crashes: no Recover, a Recover that skips, or the abort sentinel -/
+example : serve ⟨false, false, [], .nothing, .panicked (.str 1)⟩ = .crashed := by decide
+example : serve ⟨false, false, [.callsError true, .recover ⟨true, false, .unset⟩], .nothing,
+    .panicked (.str 1)⟩ = .crashed := by decide
+example : serve ⟨false, false, chainR, .nothing, .panicked .abort⟩ = .crashed := by decide
+/-- two Recover instances: the inner one skips, the outer one catches -/
+example : serve ⟨false, false, [.recover ⟨false, false, .unset⟩, .recover ⟨true, false, .unset⟩],
+    .nothing, .panicked (.int 4)⟩ = .response ⟨[500], [.message (.statusText 500) none], true⟩ := by
+  decide
+/-- `LogErrorFunc` replaces the error: panic("boom") is answered with the 503 it returned … -/
+example : serve ⟨false, false, [.recover ⟨false, false, .replace (.http 503 (.str 6))⟩], .nothing,
+    .panicked (.str 1)⟩ = .response ⟨[503], [.message (.atom 6) none], true⟩ := by decide
+/-- … also when Recover hands it back to an outer middleware that reports it itself … -/
+example : serve ⟨false, false, [.callsError false, .recover ⟨false, true, .replace (.http 503 (.str 6))⟩],
+    .nothing, .panicked (.str 1)⟩ = .response ⟨[503], [.message (.atom 6) none], true⟩ := by decide
+/-- … and swallows it when it returns nil -/
+example : serve ⟨false, false, [.recover ⟨false, false, .swallow⟩], .nothing, .panicked (.str 1)⟩
+    = .response {} := by decide
+/-- hand-overs: returned error through two reporting middlewares (the inner one returns it,
+    the outer one too) = 2 × c.Error + ServeHTTP; a recovered panic under Recover() = 1 -/
+example : handOvers ⟨false, false, [.callsError true, .callsError true], .nothing, .returned (.plain 1)⟩ = 3 ∧
+    handOvers ⟨false, false, chainR, .nothing, .panicked (.str 1)⟩ = 1 ∧
+    handOvers ⟨false, false, [.recover ⟨false, false, .swallow⟩], .nothing, .panicked (.str 1)⟩ = 0 := by
+  decide
+/-- the hypotheses of `C07_recovered` / `C07_panic_value_generic` are met -/
+example : firstCatcher (chainA.reverse) = some ⟨false, true, .unset⟩ ∧
+    keepsError (LogFn.unset) = true := by decide
+/-- `context.Canceled` (a plain error with a reserved atom) is not special -/
+example : handle false false {} (.plain 9001) = handle false false {} (.plain 7) := by decide
 
 end C07
